@@ -44,12 +44,12 @@ CHECKS = {
    note="Trusted: dst/core/elfedit.py (raw-byte container transforms, cross-checked with GNU readelf during development), zlib. Only the two rejections the statement names are demanded. Images with duplicate debug section names, inconsistent shipped containers or without section headers are skipped and counted."),
  'C09': dict(engine='storesim', category='fault_enumeration', design_ref='DESIGN.md section 3 / C09',
    technique='deterministic simulation with fault injection: loss of the section-header table (3 enumerated fault kinds on the simulated disk) with seeded query orders and cursor displacement over the DynamicSegment recovery path; oracle = section view of the intact image',
-   text="Scope: the equivalence clause. For every corpus image with PT_DYNAMIC whose dynamic pointers lie in PT_LOAD file extents: section headers lost in three ways (fields zeroed; + table overwritten with noise; + file truncated at the table) x 8/64 seeded query orders with cursor displacement; tags, strings, symbol count (when a hash table is present), symbols, name lookups, relocation tables and table offsets obtained through the DynamicSegment must equal the section view of the intact image field for field. The fault classes are enumerated completely over the eligible images.",
-   note="Both views share the tag/symbol decoders: a consistent decode error is invisible (pure decode, not claimed). Preconditions computed by an independent struct-based reader (dst/core/elfraw.py)."),
+   text="For every corpus image with PT_DYNAMIC whose dynamic pointers lie in PT_LOAD file extents, and for seeded synthetic dynamically linked images written by an own ELF writer (two PT_LOADs with different bias, REL/RELA/RELR, EM_MIPS ELF64 layout, duplicated tag types, tail-merged and non-ASCII strings, junk after the terminator): section headers lost in three ways (fields zeroed; + table overwritten with noise; + file truncated at the table), or kept (intact mode), or with a decoy pointer tag, x seeded query orders with cursor displacement; tags (also filtered by type and by index), strings, symbol count (when a hash table is present), symbols, name lookups, relocation tables and table offsets obtained through the DynamicSegment must equal the section view of the intact image field for field - and, on the synthetic images, the ground truth the writer encoded (so a decode error shared by both views is visible there). The fault classes are enumerated completely over the eligible images.",
+   note="On corpus images both views share the tag/symbol/relocation decoders, so a consistent decode error is only visible on the synthetic images (ground truth). Preconditions computed by an independent struct-based reader (dst/core/elfraw.py). Trusted: the image writer dst/core/elfbuild.py (cross-read with GNU readelf during development)."),
  'C03': dict(engine='idxsim', category='exploration', design_ref='DESIGN.md section 3 / C03',
    technique='deterministic simulation with fault injection: hash-index events (31-bit hash collisions, bloom false positives) injected as stored bytes on the simulated disk, seeded query workloads with cursor displacement; oracle = linear scan of the symbol table + raw chain walk',
-   text="Scope: the lookup and count clauses. For every SysV/GNU hash section of the corpus (and the same tables reached through the dynamic segment of the image without section headers): seeded query lists (present names, constructed same-hash absent names, same-bucket absent names, random absent, empty, non-ASCII, unhashed symbols) with cursor displacement between queries, with injected chain-word collisions and bloom false positives; completeness and soundness of hash lookup, exactness of get_symbol_by_name, and the recovered count are compared with a linear scan of the linked table and the raw bucket/chain walk.",
-   note="That each enumerated symbol equals its encoded bytes is pure decode and not decided here. The count clause is asserted only for tables satisfying the GNU format invariant (every index >= symoffset is hashed); ld's empty-table convention is counted as outside the envelope. Trusted: reference hash functions and raw table walk in dst/core/elfraw.py."),
+   text="Scope: the lookup and count clauses (plus enumeration of names on synthetic images). For every SysV/GNU hash section of the corpus, the same tables reached through the dynamic segment of the image without section headers, and seeded synthetic images with an own hash-table 'linker' (bloom sizes 1-8 incl. non powers of two, 1-16 buckets, symoffset anywhere, chains ending at the table end, colliding/long/non-ASCII names, padded symbol entries, both classes and byte orders): seeded query lists (present names, constructed same-hash absent names, same-bucket absent names, random absent, empty, non-ASCII, unhashed symbols) with cursor displacement between queries, with injected chain-word collisions and bloom false positives; completeness and soundness of hash lookup, exactness of get_symbol_by_name, and the recovered count are compared with a linear scan of the linked table (synthetic images: with the names the writer encoded) and the raw bucket/chain walk.",
+   note="That each enumerated symbol equals its encoded bytes is pure decode and only judged on synthetic images (names). The count clause is asserted only for tables satisfying the GNU format invariant (every index >= symoffset is hashed); ld's empty-table convention is counted as outside the envelope. Trusted: reference hash functions and raw table walk in dst/core/elfraw.py, the image writer dst/core/elfbuild.py."),
 }
 
 def main():
